@@ -139,7 +139,7 @@ REF["eps"] = lambda cfg: "eps = rho/rho0 - 1" if (cfg.get("in:rho") and cfg.get(
 REF["rho"] = lambda cfg: "rho = rho0*(1+eps)"
 REF["enthalpy"] = lambda cfg: "enthalpy = 1 + eps + press/rho0"
 REF["velup3"] = lambda cfg: "velup3[0]=velx; velup3[1]=vely; velup3[2]=velz"
-REF["velup4"] = lambda cfg: "velup4[1]=velx; velup4[2]=vely; velup4[3]=velz"
+REF["velup4"] = lambda cfg: "velup4[i+1] = velup3[i]"
 REF["veldown4"] = lambda cfg: "veldown4[B] = velup4[A]*gammadown4[A,B]"
 REF["veldown3"] = lambda cfg: "veldown3[i] = veldown4[i+1]"
 REF["uup0"] = lambda cfg: "uup0 = w_lorentz/alpha"
@@ -278,8 +278,9 @@ _DK = ("dK[c,a,b] = d(Kdown3[a,b],c) - s_Gamma_udd3[e,c,a]*Kdown3[e,b] "
 
 
 def _s_to_st(cfg, src, dst):
-    noshift = not (cfg.get("in:betaup3") or cfg.get("in:betax") or cfg.get("in:betay")
-                   or cfg.get("in:betaz"))
+    # the zero-shift shortcut applies only when the code asked about all four keys and none
+    # is present; a formula that never asks is compared with the general case
+    noshift = all(cfg.get("in:" + k) is False for k in ("betaup3", "betax", "betay", "betaz"))
     s = f"{dst}[i+1,j+1] = {src}[i,j];"
     if not noshift:
         s += (f"{dst}[0,0] = betaup3[i]*betaup3[j]*{src}[i,j];"
